@@ -19,8 +19,9 @@
 (*     AsImplemented; never an oracle for a verdict):                      *)
 (*       - one mutable variables dict D per let/for scope, shared by every *)
 (*         XPathContext copy made inside the scope (copy(context) is       *)
-(*         shallow) - a function call writes captured variables and        *)
-(*         parameters INTO THE CALLER'S dict;                              *)
+(*         shallow); an inline function call works on its own copy of the  *)
+(*         caller's dict (/repo commit a3d4dd5; before it, the call wrote  *)
+(*         captured variables and parameters INTO THE CALLER'S dict);      *)
 (*       - _InlineFunction.evaluate stores D.copy() ON THE SYNTAX TOKEN    *)
 (*         and returns the token: T[site];                                 *)
 (*       - partial application copies the token shallowly: the copy shares *)
@@ -258,15 +259,17 @@ FillSlotsI(slots, args, q, m) ==
 CallI(f, args, m) ==
   IF AnyPoison(args) THEN R(PoisonOf(FirstPoison(args)), m)
   ELSE CASE f.fn = "tok" ->
-         \* context = copy(context) shares the dict; D.update(token.variables); D[param] = arg
+         \* context = copy(context); context.variables = context.variables.copy()  (since /repo a3d4dd5: the
+         \* callee works on its OWN copy of the caller's dict); D.update(token.variables); D[param] = arg
          LET d1 == IF f.site \in DOMAIN m.t THEN Update(m.d, m.t[f.site]) ELSE m.d
-             d2 == Bind(d1, f.params, args) IN
-         EvalI(f.body, [m EXCEPT !.d = d2])
+             d2 == Bind(d1, f.params, args)
+             r == EvalI(f.body, [m EXCEPT !.d = d2]) IN
+         R(r.v, [r.m EXCEPT !.d = m.d])
     [] f.fn = "ptok" ->
          LET m1 == [m EXCEPT !.d = Update(m.d, f.vars)]
              m2 == BindSlotsI(f.params, m.sl[f.site], args, 1, m1) IN
-         IF "_escaped" \in DOMAIN m2.d THEN R(m2.d["_escaped"], m2)
-         ELSE EvalI(f.body, m2)
+         IF "_escaped" \in DOMAIN m2.d THEN R(m2.d["_escaped"], [m2 EXCEPT !.d = m.d])
+         ELSE LET r == EvalI(f.body, m2) IN R(r.v, [r.m EXCEPT !.d = m.d])
     [] f.fn = "inst" ->
          \* self.clear(); self._items.append(ValueToken(arg)) ... : the shared list is overwritten
          ApplyNamedI(f.name, args, [m EXCEPT !.sl = Ext(m.sl, f.own, [j \in 1..Len(args) |-> [val |-> args[j]]])])
